@@ -263,7 +263,7 @@ package io
 //@   use decwf
 //@   let lp0 = ghost.rpos[ival(dec.reader)] - dec.tail + dec.head
 //@   modifies @DECWIN, dec.buf[*]
-//@   loop 1 invariant [shape] 0 <= dec.head && dec.head <= dec.tail && dec.tail <= len(dec.buf) && (dec.reader != nil ==> len(dec.buf) > 0 && ghost.rpos[ival(dec.reader)] >= dec.tail)
+//@   loop 1 invariant [shape] 0 <= dec.head && dec.head <= dec.tail && dec.tail <= len(dec.buf) && (dec.reader != nil ==> (dec.buf == nil || len(dec.buf) > 0) && ghost.rpos[ival(dec.reader)] >= dec.tail)
 //@   loop 1 invariant [coupling] dec.reader != nil ==> forall(j, off(dec.buf) + dec.head, off(dec.buf) + dec.tail, mem(dec.buf, j) == ghost.rstream[ival(dec.reader)][ghost.rpos[ival(dec.reader)] - dec.tail - off(dec.buf) + j])
 //@   loop 1 invariant [only_digits_passed] dec.reader != nil ==> ghost.rpos[ival(dec.reader)] - dec.tail + dec.head >= lp0 &&
 //@       forall(q, lp0, ghost.rpos[ival(dec.reader)] - dec.tail + dec.head, isdigit(ghost.rstream[ival(dec.reader)][q]))
@@ -271,6 +271,7 @@ package io
 //@   loop 1 invariant [sticky] old(dec.Error) != nil ==> dec.Error != nil
 //@   loop 1 invariant [bufid] arr(dec.buf) == old(arr(dec.buf)) || isnew(arr(dec.buf))
 //@   loop 2 invariant [scan] dec.head <= p && p <= dec.tail && forall(j, off(dec.buf) + dec.head, off(dec.buf) + p, isdigit(mem(dec.buf, j)))
+//@   loop 2 invariant [scan_stream] dec.reader != nil ==> forall(q, ghost.rpos[ival(dec.reader)] - dec.tail + dec.head, ghost.rpos[ival(dec.reader)] - dec.tail + p, isdigit(ghost.rstream[ival(dec.reader)][q]))
 //@   ensures [stream_stops_after_the_first_non_digit] dec.reader != nil && isdigit(c) ==>
 //@       ghost.rpos[ival(dec.reader)] - dec.tail + dec.head >= lp0 &&
 //@       forall(q, lp0, ghost.rpos[ival(dec.reader)] - dec.tail + dec.head - 1, isdigit(ghost.rstream[ival(dec.reader)][q])) &&
